@@ -146,6 +146,28 @@ class SimPipe(_Core):
         return self.p
 
 
+class RawAdapter(io.RawIOBase):
+    """The non-blocking pipe double as an io.RawIOBase, so that the standard library's BufferedReader can sit on
+    top of it (what os.fdopen() gives for a non-blocking descriptor): would-block is None from readinto()."""
+
+    def __init__(self, pipe):
+        io.RawIOBase.__init__(self)
+        self.pipe = pipe
+
+    def readable(self):
+        return True
+
+    def seekable(self):
+        return False
+
+    def readinto(self, b):
+        data = self.pipe.read(len(b))
+        if data is None:
+            return None
+        b[:len(data)] = data
+        return len(data)
+
+
 class SimBytesIO(io.BytesIO):
     """A BytesIO subclass, the shape upstream's RestartableDecoderTestCase uses.
 
